@@ -39,6 +39,7 @@ class Config:
     int_axis0: bool = False  # without segmentation: the first position axis holds Python ints
     custom_annotator: bool = False  # a user-written annotator appended to tracks.annotators
     seg_layout: str = "C"  # C | F (Fortran order) | view (every second column of a wider array)
+    p_root: float = 0.2  # probability that a detection starts a new lineage (1.0: no edges)
 
     def to_json(self):
         d = asdict(self)
@@ -155,7 +156,8 @@ class Forest:
 
 
 def random_forest(rng: random.Random, T: int, max_per_frame: int, id_kind: str = "contig",
-                  skip_prob: float = 0.2, min_nodes: int = 0, p_empty: float = 0.15) -> Forest:
+                  skip_prob: float = 0.2, min_nodes: int = 0, p_empty: float = 0.15,
+                  p_root: float = 0.2) -> Forest:
     counts = []
     for _ in range(T):
         counts.append(0 if (max_per_frame <= 0 or rng.random() < p_empty)
@@ -193,7 +195,7 @@ def random_forest(rng: random.Random, T: int, max_per_frame: int, id_kind: str =
     outdeg = {i: 0 for i in times}
     for t in range(1, T):
         for v in by_frame[t]:
-            if rng.random() < 0.2:
+            if rng.random() < p_root:
                 continue  # root
             # candidate parents: previous non-empty frame, or (skip) any earlier frame
             if rng.random() < skip_prob:
@@ -380,7 +382,7 @@ def build_tracks(cfg: Config):
 
     rng = random.Random(cfg.seed)
     forest = random_forest(rng, cfg.T, cfg.max_per_frame, cfg.id_kind, cfg.skip_prob,
-                           p_empty=cfg.p_empty)
+                           p_empty=cfg.p_empty, p_root=cfg.p_root)
     seg = make_segmentation(rng, forest, cfg.frame_shape(), thick=cfg.thick,
                             dtype=np.dtype(cfg.seg_dtype)) if cfg.seg else None
     if seg is not None and cfg.seg_layout == "F":
